@@ -76,7 +76,7 @@ def r03_1(run):
                 if done:
                     continue
                 # not passed: only acceptable where p provably holds a sentinel
-                ok = any(p in tp and cfg.edge_dominates(n, "false", nk) for n, tp in tests.items())
+                ok = any(set(tp) == {p} and cfg.edge_dominates(n, "false", nk) for n, tp in tests.items())
                 run.ob("R03.1", loc(fi, k), fi.short, f"kernel call without {p}= is only reached when {p} holds a sentinel", ok,
                        f"call lies on the false edge of `{p} is not <sentinel> [and ...]`" if ok else
                        f"option {p} is silently ignored by {fi.short}")
